@@ -41,11 +41,12 @@ var waitStates = []string{
 	"chan receive", "chan send", "select", "sync.Cond.Wait", "sync.Mutex.Lock",
 	"sync.RWMutex.RLock", "sync.RWMutex.Lock", "semacquire", "sync.WaitGroup.Wait",
 	"finalizer wait", "GC worker (idle)", "GC sweep wait", "GC scavenge wait",
-	"force gc (idle)", "GC assist wait", "cleanup wait", "debug call",
+	"force gc (idle)", "cleanup wait",
 }
 
 // Waiting reports whether a goroutine state is a blocked state that only another
-// goroutine's action can end.
+// goroutine's action can end. States the runtime ends by itself ("GC assist
+// wait", "sleep", "runnable", "syscall", "IO wait") are deliberately not listed.
 func Waiting(state string) bool {
 	for _, w := range waitStates {
 		if strings.HasPrefix(state, w) {
